@@ -2,8 +2,10 @@
 //! known findings, exit codes, enumeration helpers and the independent oracles.
 //! This crate deliberately does NOT depend on minidump-writer.
 
+pub mod elfbuild;
 pub mod elfref;
 pub mod lat;
+pub mod mapsref;
 pub mod mdparse;
 pub mod report;
 
